@@ -1,6 +1,7 @@
 """Registry: property id -> how it is decided (which corpus, which TLA+ formulas, which coverage)."""
 import json
 import os
+import time
 from concurrent.futures import ThreadPoolExecutor
 
 import common
@@ -1097,6 +1098,43 @@ def mc_swaps(out, tier):
             extra_env={"INSTANCE": ip}, workers=max(4, common.NCPU - 2), timeout=6000, cont=False, xmx="12g"))
 
 
+def mc_pipeline_ind(out, tier):
+    """PipelineInd.tla with Apalache: inductive invariant over an unbounded objective domain (C08, design level)."""
+    import shutil
+    import subprocess
+    d = os.path.join(common.WORK, "cache", "mc_" + spec_hash())
+    os.makedirs(d, exist_ok=True)
+    p = os.path.join(d, "PipelineInd_apalache.json")
+    if os.path.exists(p):
+        with open(p) as f:
+            rec = json.load(f)
+    else:
+        exe = shutil.which("apalache-mc")
+        if exe is None:
+            raise ToolError("apalache-mc not found")
+        runs = [("base", ["--init=Init", "--inv=IndInv", "--length=0"]),
+                ("step", ["--init=IndInit", "--inv=IndInv", "--length=1"]),
+                ("implies", ["--init=IndInit", "--inv=ResultNotWorse", "--length=0"])]
+        rec = {"runs": []}
+        t0 = time.time()
+        for name, args in runs:
+            od = os.path.join(common.WORK, "apalache_%d_%s" % (os.getpid(), name))
+            r = subprocess.run([exe, "check", "--out-dir=" + od] + args + [os.path.join(common.VERIF, "spec", "PipelineInd.tla")],
+                               stdout=subprocess.PIPE, stderr=subprocess.STDOUT, text=True, timeout=1200, cwd=common.WORK)
+            shutil.rmtree(od, ignore_errors=True)
+            ok = "EXITCODE: OK" in r.stdout
+            rec["runs"].append({"name": name, "ok": ok, "tail": r.stdout[-300:]})
+        rec["wall"] = time.time() - t0
+        if all(x["ok"] for x in rec["runs"]):
+            with open(p, "w") as f:
+                json.dump(rec, f)
+    bad = [x for x in rec["runs"] if not x["ok"]]
+    if bad:
+        raise ToolError("Apalache did not establish the inductive invariant of PipelineInd (%s): %s" % (bad[0]["name"], bad[0]["tail"]))
+    out.tlc_runs.append({"run": "Apalache:PipelineInd(IndInv inductive, unbounded objective domain)", "distinct": 0,
+                         "generated": 0, "wall_s": round(rec["wall"], 2)})
+
+
 def mc_circulation(out, tier):
     d = os.path.join(common.WORK, "cache", "mc_" + spec_hash())
     os.makedirs(d, exist_ok=True)
@@ -1125,7 +1163,7 @@ MC_LEGS = {
     "C14": [mc_circulation], "C09": [mc_schedule, mc_tourcache], "C04": [mc_tourcache],
     "C01": [mc_schedule], "C02": [mc_schedule], "C03": [mc_schedule], "C05": [mc_schedule],
     "C10": [mc_schedule], "C13": [mc_schedule], "C11": [mc_swaps],
-    "C06": [mc_pipeline], "C07": [mc_pipeline], "C08": [mc_pipeline], "C16": [mc_pipeline],
+    "C06": [mc_pipeline], "C07": [mc_pipeline], "C08": [mc_pipeline, mc_pipeline_ind], "C16": [mc_pipeline],
 }
 
 
